@@ -45,6 +45,9 @@ def gen_duplex(rng, tier, small):
 
 
 def run_shard(campaign, shard, nshards, seed, tier):
+    if campaign == 'api':
+        import apiuse
+        return apiuse.run_api('C10', shard, nshards, seed, tier)
     part = Part()
     rng = random.Random('%s/%s/%s' % (seed, campaign, shard))
     quick = tier != 'thorough'
@@ -69,4 +72,6 @@ def run_shard(campaign, shard, nshards, seed, tier):
 def run(ctx):
     run_sharded(ctx, 'C10', 'small')
     run_sharded(ctx, 'C10', 'large')
-    return RULE, ASSUME
+    run_sharded(ctx, 'C10', 'api', nshards=2)
+    import apiuse
+    return RULE + apiuse.rule_text('C10'), ASSUME
